@@ -2,4 +2,4 @@ From Coq Require Import Extraction ExtrOcamlBasic.
 From Cddl Require Import Pos.Span Pos.ErrRange Pos.Tree.
 Extraction Language OCaml.
 (* path relative to the directory make runs in (/verif/coq) *)
-Extraction "../oracle/gen/pos_model.ml" lines_render span_position_render ast_position_render err_render err_render_fixed err_sweep_render err_sweep_fixed_render events_wf_render.
+Extraction "../oracle/gen/pos_model.ml" lines_render span_position_render ast_position_render err_render err_sweep_render events_wf_render.
